@@ -291,7 +291,8 @@ func (m *monitors) checkLog(r *run, dts map[string]*dtInfo, inflight bool, final
 				r.fail(fam, "C06.sseq-gapless", "id-format", "operation document id %q does not name %s:%d", so.doc.ID, duid, so.doc.Sseq)
 			}
 			k := opKey(so.op)
-			if seen[k] {
+			registered := m.isClientCUID(r, so.op.ID.GetCUID())
+			if seen[k] && registered {
 				r.fail(fam, "C06.every-pushed-op-once", "stored-twice", "datatype %s: operation %s is stored twice (sseq %v)", di.doc.Key, k, sseqs(di.ops))
 				r.fail("msg", "C07.same-as-fault-free", "stored-twice", "datatype %s: operation %s is stored twice", di.doc.Key, k)
 				r.fail("retry", "C08.exactly-once", "stored-twice", "datatype %s: operation %s is stored twice", di.doc.Key, k)
@@ -299,7 +300,7 @@ func (m *monitors) checkLog(r *run, dts map[string]*dtInfo, inflight bool, final
 			}
 			seen[k] = true
 			cu := so.op.ID.GetCUID()
-			if so.op.ID.GetSeq() != perClient[cu]+1 {
+			if so.op.ID.GetSeq() != perClient[cu]+1 && registered {
 				r.fail(fam, "C06.client-order", "seq-order", "datatype %s: operations of client %s are stored with seq %d after %d (sseq %d)", di.doc.Key, cu, so.op.ID.GetSeq(), perClient[cu], so.doc.Sseq)
 				r.fail("msg", "C07.same-as-fault-free", "seq-order", "datatype %s: operations of client %s are stored with seq %d after %d", di.doc.Key, cu, so.op.ID.GetSeq(), perClient[cu])
 				r.fail("retry", "C08.exactly-once", "seq-order", "datatype %s: operations of client %s are stored with seq %d after %d", di.doc.Key, cu, so.op.ID.GetSeq(), perClient[cu])
@@ -311,7 +312,7 @@ func (m *monitors) checkLog(r *run, dts map[string]*dtInfo, inflight bool, final
 					r.fail("wire", "C14.store", "stored-differs", "operation %s of %s as stored differs from what the client sent:\n  sent  : %s\n  stored: %s", k, di.doc.Key, sent, got)
 					r.fail(fam, "C06.every-pushed-op-once", "stored-differs", "operation %s of %s as stored differs from what the client sent", k, di.doc.Key)
 				}
-			} else if di.doc.Key != "?orphan" && !strings.HasPrefix(cu, "!@#") {
+			} else if di.doc.Key != "?orphan" && registered {
 				r.fail(fam, "C06.every-pushed-op-once", "never-pushed", "datatype %s stores operation %s that no client pushed", di.doc.Key, k)
 			}
 		}
@@ -370,6 +371,17 @@ func (m *monitors) checkLog(r *run, dts map[string]*dtInfo, inflight bool, final
 		}
 		byKey[k] = duid
 	}
+}
+
+// isClientCUID: is this the id of a client registered through ProcessClient (as opposed to the
+// server's own replica used by the REST patch endpoint)?
+func (m *monitors) isClientCUID(r *run, cuid string) bool {
+	for _, a := range r.w.actors {
+		if a.cuid == cuid {
+			return true
+		}
+	}
+	return false
 }
 
 func sseqs(ops []storedOp) []uint64 {
@@ -517,6 +529,9 @@ func (m *monitors) atQuiescence(r *run) {
 	}
 	groups := map[string][]holder{}
 	for _, a := range w.actors {
+		if a.gone {
+			continue
+		}
 		for _, d := range a.dts {
 			if d.dt.GetState() != model.StateOfDatatype_SUBSCRIBED {
 				continue
@@ -525,8 +540,8 @@ func (m *monitors) atQuiescence(r *run) {
 			groups[k] = append(groups[k], holder{a, d})
 		}
 	}
-	names := []string{"conv", "msg", "retry", "realtime", "rest", "entry"}
-	oracleOf := map[string]string{"conv": "C05", "msg": "C07", "retry": "C08", "realtime": "C18", "rest": "C19", "entry": "C13"}
+	names := []string{"conv", "msg", "retry", "realtime", "rest", "entry", "iso", "serial"}
+	oracleOf := map[string]string{"conv": "C05", "msg": "C07", "retry": "C08", "realtime": "C18", "rest": "C19", "entry": "C13", "iso": "C17", "serial": "C12"}
 	failAll := func(suffix, fp, format string, a ...interface{}) {
 		for _, f := range names {
 			o := oracleOf[f] + "." + suffix
@@ -541,6 +556,10 @@ func (m *monitors) atQuiescence(r *run) {
 				o = "C19.subscribers-converge"
 			case "entry":
 				o = "C13.first-state"
+			case "iso":
+				o = "C17.same-key-independent"
+			case "serial":
+				o = "C12.linearizable-outcome"
 			}
 			r.fail(f, o, fp, format, a...)
 		}
